@@ -76,9 +76,8 @@ func replayRuneProbes(tr *Trace) error {
 }
 
 func TestC01RuneProbes(t *testing.T) {
-	spec := specByID("C01")
 	stats.Property = "C01"
-	stats.Rule = spec.Rule
+	stats.Rule = "[]rune-keyed collation tree: after inserts of valid text, Search and Delete are probed with rune slices containing non-scalar values (lone surrogates, values above U+10FFFF, negative values); they must return normally, report absent / false, and leave the tree unchanged; non-trivial = at least one stored key and one such probe; distinct by trace hash"
 	rapid.Check(t, func(rt *rapid.T) {
 		kind := MustKind("coll:und:runes")
 		u := bytesUniverse(rt, kind, pick(rt, []string{"text", "text", "textfan", "deep"}, "profile"))
